@@ -71,7 +71,7 @@ func (a argv) String() string {
 
 // opDesc is one operation of the (static) alphabet.
 type opDesc struct {
-	Recv   string // ro | sub0 | f0 | f1
+	Recv   string // ro | sub0 | f0 | f1 | base (a change made directly on the base and on the twin, not through the wrapper)
 	Method string
 	Args   []argv
 	Dst    string // slot receiving a returned File / VFS ("" if the method returns neither)
@@ -120,6 +120,7 @@ const (
 	clHandout = "handout"      // hands out a file system (Sub): the result is pooled, not compared
 	clUnspec  = "unspecified"  // OpenFile with O_EXCL/O_SYNC but no write intent: POSIX leaves it open
 	clUnknown = "unclassified" // a method this driver does not know: only the base snapshot and panics are checked
+	clBase    = "base-side"    // not a call through the wrapper: a change made directly on the base (and on the twin), see baseLetters
 )
 
 var vfsClass = map[string]string{
@@ -151,6 +152,10 @@ var fileClass = map[string]string{
 const writeIntent = os.O_WRONLY | os.O_RDWR | os.O_APPEND | os.O_CREATE | os.O_TRUNC
 
 func classOf(o opDesc) string {
+	if o.Recv == "base" {
+		return clBase
+	}
+
 	if o.Recv == "f0" || o.Recv == "f1" {
 		if c, ok := fileClass[o.Method]; ok {
 			return c
@@ -505,6 +510,93 @@ func fileArgs(name string, mt reflect.Type, d domains) ([][]argv, bool) {
 	return genericArgs(mt, d)
 }
 
+// Base-side letters.
+//
+// Lesson: a read-only wrapper is a WINDOW on a file system that other users of
+// the base keep changing; "returns what the underlying file system returns"
+// means what it returns NOW. As long as the only actor of a history is the
+// wrapper (whose mutations are all refused) the base is a constant, and an
+// answer computed once and kept (a cached FileInfo, a cached listing, a
+// content read at open time) can never be told from a live one. The alphabet
+// therefore holds a handful of changes that are applied directly to the base
+// and, identically, to the twin: each of the things a read reports (size and
+// content growing and shrinking, mode, mtime, the entries of a listed
+// directory coming and going, the link count, the name an open file is known
+// by) changes under the objects the wrapper handed out earlier.
+//
+// All operands are absolute, so the current directory of the base does not
+// matter; the file that grows, shrinks and is renamed is the one with a second
+// link and (MemFS) a symbolic link, so the change shows under other names too.
+func baseLetters(d domains) []opDesc {
+	data := func(s string) argv { return argv{K: "data", S: s} }
+	later := argv{K: "time", I: restampSeconds}
+
+	l := []opDesc{
+		{Recv: "base", Method: "WriteFile", Args: []argv{p("/d/f"), data("longer data"), md(0o644)}}, // grows (seen through /d/h and /d/s too)
+		{Recv: "base", Method: "WriteFile", Args: []argv{p("/d/f"), data("d"), md(0o644)}},           // shrinks
+		{Recv: "base", Method: "Chmod", Args: []argv{p("/d/f"), md(0o600)}},
+		{Recv: "base", Method: "Mkdir", Args: []argv{p("/d/new"), md(0o755)}}, // an entry appears in a listed directory (and a missing operand becomes a directory)
+		{Recv: "base", Method: "Remove", Args: []argv{p("/d/h")}},             // an entry disappears, the link count of /d/f drops
+		{Recv: "base", Method: "Rename", Args: []argv{p("/d/f"), p("/d/r")}},  // a file that may be open gets another name
+	}
+
+	if d.tier == "thorough" {
+		l = append(l,
+			opDesc{Recv: "base", Method: "Chtimes", Args: []argv{p("/d/e/g"), later, later}},
+			opDesc{Recv: "base", Method: "Remove", Args: []argv{p("/d/e/g")}}, // a file that may be open loses its last name
+			opDesc{Recv: "base", Method: "WriteFile", Args: []argv{p("/d/e/g"), data(""), md(0o600)}},
+			opDesc{Recv: "base", Method: "Chmod", Args: []argv{p("/d/e"), md(0o700)}},
+			opDesc{Recv: "base", Method: "Chtimes", Args: []argv{p("/d"), later, later}},
+			opDesc{Recv: "base", Method: "WriteFile", Args: []argv{p("/d/e/n"), data("nn"), md(0o644)}}, // a new file
+			opDesc{Recv: "base", Method: "RemoveAll", Args: []argv{p("/d/e")}},                          // a directory that may be open disappears with its content
+			opDesc{Recv: "base", Method: "Rename", Args: []argv{p("/d/e"), p("/d/q")}},
+		)
+
+		if d.vol2 {
+			l = append(l, opDesc{Recv: "base", Method: "WriteFile", Args: []argv{p(vol2File), data("www"), md(0o644)}})
+		}
+	}
+
+	return l
+}
+
+// restampSeconds: after a base-side letter every node whose modification time
+// moved is given fsx.FixedTime plus this many seconds on the base and on the
+// twin (the clock of the two instances is the wall clock: without it base and
+// twin would differ, and the state key would differ from run to run).
+const restampSeconds = 60
+
+// treeReads: the read-only methods of a file system whose answer is taken from
+// the tree (the others are lexical, or report view state). true: asked in the
+// quick tier too - attributes by name, listing, content, link resolution;
+// false: thorough only - the two that traverse the tree (their answers are
+// made of the listings and attributes the others report).
+var treeReads = map[string]bool{
+	"Stat": true, "Lstat": true, "ReadDir": true, "ReadFile": true, "Readlink": true, "EvalSymlinks": true,
+	"Glob": false, "WalkDir": false,
+}
+
+// stillReads: the read-only methods of a handle that do not move it.
+var stillReads = map[string]bool{"Stat": true, "Name": true, "ReadAt": true}
+
+// isProbe: a read-only operation of the alphabet that reads the tree, hands
+// nothing out that is pooled and leaves the state of its receiver alone. These
+// are the questions a base-side letter asks every pooled object BEFORE and
+// AFTER the change (see baseStep).
+func isProbe(o opDesc, tier string) bool {
+	if classOf(o) != clRO || o.Dst != "" {
+		return false
+	}
+
+	if o.Recv == "f0" || o.Recv == "f1" {
+		return stillReads[o.Method]
+	}
+
+	quick, ok := treeReads[o.Method]
+
+	return ok && (quick || tier == "thorough")
+}
+
 // the 48 flag combinations of {RDONLY,WRONLY,RDWR} x APPEND x TRUNC x CREATE x EXCL
 func allFlags() []int {
 	var out []int
@@ -743,6 +835,10 @@ func buildOps(base, tier string) (ops []opDesc, bad []string, info map[string]an
 		}
 	}
 
+	// changes made directly on the base (and on the twin)
+	letters := baseLetters(dom(roPaths, false))
+	ops = append(ops, letters...)
+
 	// spelled for the OS type of the base
 	sp := func(l []string) []string {
 		out := make([]string, len(l))
@@ -780,6 +876,24 @@ func buildOps(base, tier string) (ops []opDesc, bad []string, info map[string]an
 		"sub_paths":            subPaths,
 		"open_flag_sets":       len(flags),
 	}
+
+	// the base-side letters, and the questions asked around each of them: operations per receiver and method
+	var ls []string
+
+	pr := map[string]int{}
+
+	for _, o := range ops {
+		if o.Recv == "base" {
+			ls = append(ls, o.String())
+		}
+
+		if isProbe(o, tier) {
+			pr[o.Recv+"."+o.Method]++
+		}
+	}
+
+	info["base_side_letters"] = ls
+	info["questions_asked_around_a_base_side_letter"] = pr
 
 	return ops, bad, info
 }
